@@ -442,7 +442,13 @@ def check_kani_property(prop, spec, tier):
                 if r["reached"] or spec.get("nontrivial_without_repo_checks"):
                     nontrivial += 1
             continue
-        if cls == "inconclusive":
+        # An indirect call that CBMC cannot resolve to any function of a matching signature ("missing_definition") proves
+        # nothing by itself - but when it sits in library / generated code it is what a caller-callee signature mismatch
+        # looks like to the solver. It is taken as a counterexample CANDIDATE: only a native run of the same harness body
+        # that fails against the real code turns it into a violation, otherwise it stays inconclusive.
+        md_only = (cls == "inconclusive" and r["status"] == "Failure" and bool(r["failed"])
+                   and all(f["cat"] == "missing_definition" for f in r["failed"]))
+        if cls == "inconclusive" and not md_only:
             inconclusive.append((h, "inconclusive: status=%s failed=%s err=%s" % (r["status"], r["failed"][:3], r["error"])))
             continue
         # cls == fail
@@ -487,20 +493,20 @@ def check_kani_property(prop, spec, tier):
                 if ok:
                     reproduced, chosen = True, t
                     break
-        if not reproduced and not [t for t in tests if not t["is_cover"]]:
+        if not reproduced and (md_only or not [t for t in tests if not t["is_cover"]]):
             # The solver found the assertion violable but the tool chain produced no concrete values for it (observed:
             # CBMC aborts in bits2expr while building the trace of a counterexample that contains an array of
             # zero-sized elements). The verdict stands; to show it against the real code, run the same harness body
             # natively on a fixed family of small input streams and accept a run only if it fails IN THE SAME CHECK
             # (same assertion text or source line) the solver reported.
-            wanted = [f for f in r["failed"] if f["cat"] not in INCONCLUSIVE_CATS]
+            wanted = [f for f in r["failed"] if f["cat"] not in INCONCLUSIVE_CATS] or r["failed"]
             for cand in synthetic_inputs():
                 ok, how2, attempts = native_replay(gcrate, h, cand, features=features, profiles=("dev",))
                 if not ok:
                     continue
                 tail = attempts[-1]["tail"]
-                if any((f["desc"] and f["desc"] in tail) or (f["loc"] and f["loc"] != "unknown:unknown" and f["loc"] + ":" in tail)
-                       for f in wanted):
+                if md_only or any((f["desc"] and f["desc"] in tail) or (f["loc"] and f["loc"] != "unknown:unknown" and f["loc"] + ":" in tail)
+                                  for f in wanted):
                     t = {"check": "synthetic input stream (no solver trace available): " + wanted[0]["desc"], "bytes": cand,
                          "is_cover": False}
                     tests = [t] + tests
@@ -519,6 +525,8 @@ def check_kani_property(prop, spec, tier):
         rec["replay"] = rpath
         if reproduced:
             violations.append((h, rpath, r["failed"]))
+        elif md_only:
+            inconclusive.append((h, "inconclusive: unresolvable indirect call, no native failure found: %s" % r["failed"][:2]))
         else:
             unreplayed.append((h, rpath, r["failed"]))
 
